@@ -114,7 +114,7 @@ def e1_ops(n):
     """All operations for a list of length n (arguments that depend on n resolved)."""
     ops = []
     for name in ("filter", "filter_out"):
-        for p in ("true", "false", "a_eq_1", "a_is_none"):
+        for p in ("true", "false", "a_eq_1", "a_is_none", "a_value", "b_value"):
             ops.append({"op": name, "pred": p})
         for kv in KV_SETS:
             ops.append({"op": name, "kv": kv})
